@@ -1356,7 +1356,7 @@ DATATYPES = {
     'blob': lambda maxbytes, minbytes=0, **kwds:
         BLOBType(minbytes=minbytes, maxbytes=maxbytes),
     'string': lambda minchars=0, maxchars=None, isUTF8=False, **kwds:
-        StringType(minchars=minchars, maxchars=maxchars, isUTF8=isUTF8),
+        StringType(minchars=minchars, maxchars=UNLIMITED if maxchars is None else maxchars, isUTF8=isUTF8),
     'array': lambda maxlen, members, minlen=0, pname='', **kwds:
         ArrayOf(get_datatype(members, pname), minlen=minlen, maxlen=maxlen),
     'tuple': lambda members, pname='', **kwds:
